@@ -17,6 +17,7 @@ import (
 	"runtime"
 	"sort"
 	"strings"
+	"sync"
 	"testing"
 
 	"cuelang.org/go/cue"
@@ -121,15 +122,21 @@ f10_S: #D10_S & {spec_S: name_S: "n"}`,
 	/*19*/ `f19_S: {t_S: struct.MinFields(1) & {a_S: 1}, u_S: list.Sort([3, 1, 2], list.Ascending)}`,
 }
 
+// program imports only the builtin packages its fragments use, so that the
+// others are loaded for the first time by whichever concurrent call needs them.
 func program(c *Case) string {
-	var b strings.Builder
-	b.WriteString("import (\n\t\"strings\"\n\t\"list\"\n\t\"math\"\n\t\"struct\"\n\t\"encoding/json\"\n)\n")
-	b.WriteString("_used: [strings.ToUpper(\"\"), list.Sum([]), math.Floor(1), struct.MinFields(0), json.Marshal(1)]\n")
+	var body strings.Builder
 	for _, i := range c.Snippets {
-		b.WriteString(strings.ReplaceAll(snippets[i%len(snippets)], "_S", "_"+c.Suffix))
-		b.WriteString("\n")
+		body.WriteString(strings.ReplaceAll(snippets[i%len(snippets)], "_S", "_"+c.Suffix))
+		body.WriteString("\n")
 	}
-	return b.String()
+	var b strings.Builder
+	for _, imp := range [][2]string{{"strings.", "strings"}, {"list.", "list"}, {"math.", "math"}, {"struct.", "struct"}, {"json.", "encoding/json"}} {
+		if strings.Contains(body.String(), imp[0]) {
+			fmt.Fprintf(&b, "import %q\n", imp[1])
+		}
+	}
+	return b.String() + body.String()
 }
 
 // paths inside snippet i that ops may look at
@@ -140,7 +147,7 @@ var snippetPaths = [][]string{
 
 var opKinds = []string{"lookup", "fields", "fields-all", "walk", "unify", "unify-accept", "fill", "fill-value", "validate", "validate-concrete", "default", "eval",
 	"syntax", "syntax-final", "syntax-all", "decode", "json", "yaml", "equals", "subsume", "expr", "refpath", "allows", "kind", "len", "attrs", "compile", "encode", "encode-type",
-	"list", "exists-concrete", "string-int", "buildexpr"}
+	"list", "exists-concrete", "string-int", "buildexpr", "validator-eq", "validator-eq"}
 
 // rare branches where a badly placed preemption matters most
 var hotSites = []string{"runtime.getKey:upgrade", "runtime.LoadBuiltin:before-lock", "cue.cachedTypeFields:miss", "convert.astFromGoType:miss",
@@ -237,6 +244,19 @@ type env struct {
 	ctx  *cue.Context
 	vals []cue.Value
 	sfx  string
+
+	// values compiled by "validator-eq" calls, by builtin package: every such value of one
+	// context must be equal to every other, whichever goroutine loaded the package first
+	mu       sync.Mutex
+	compiled map[int][]cue.Value
+}
+
+var validators = []string{
+	"import \"strings\"\nx: strings.MinRunes(3)",
+	"import \"list\"\nx: list.MaxItems(4)",
+	"import \"struct\"\nx: struct.MinFields(1)",
+	"import \"math\"\nx: math.MultipleOf(3)",
+	"import \"strings\"\nx: strings.MaxRunes(9) & strings.MinRunes(1)",
 }
 
 // build compiles the program in a fresh context and derives the shared values.
@@ -409,6 +429,22 @@ func doOp(e *env, op Op) (res string) {
 		return show(e.ctx.Encode(goT{A: op.Arg, D: &goT{A: 1}}))
 	case "encode-type":
 		return show(e.ctx.EncodeType(goT{}))
+	case "validator-eq":
+		k := op.Arg % len(validators)
+		w := e.ctx.CompileString(validators[k]).LookupPath(cue.ParsePath("x"))
+		e.mu.Lock()
+		prev := append([]cue.Value{}, e.compiled[k]...)
+		if e.compiled == nil {
+			e.compiled = map[int][]cue.Value{}
+		}
+		e.compiled[k] = append(e.compiled[k], w)
+		e.mu.Unlock()
+		for _, p := range prev {
+			if !w.Equals(p) || !p.Equals(w) {
+				return "NOT EQUAL to a value of the same expression compiled by another call: " + show(w)
+			}
+		}
+		return "equal to all: " + show(w)
 	case "exists-concrete":
 		return fmt.Sprint(at.Exists(), at.IsConcrete(), at.Err() == nil)
 	case "string-int":
